@@ -42,108 +42,112 @@ def run(index, rep, tier):
         taker_names.setdefault(f.name, []).append(f)
 
     # ---- (a) GLOBAL_RNG idioms
-    nglob = 0
-    for f in fns:
-        pm = parent_map(f.node)
-        for n in walk_no_nested(f.node):
-            if isinstance(n, ast.Name) and n.id == "GLOBAL_RNG":
-                nglob += 1
-                p = pm.get(n)
-                ok = False
-                rv = rng_var(f)
-                if isinstance(p, ast.Assign) and norm(p.targets[0]) == rv:
-                    g = pm.get(p)
-                    if isinstance(g, ast.If) and norm(g.test) in ("%s is None" % rv, "not %s" % rv, "%s == None" % rv):
-                        ok = True
-                if isinstance(p, ast.Call) and isinstance(p.func, ast.Attribute) and norm(p.func.value) == "kwargs" and p.func.attr in ("pop", "get") and const_value(p.args[0]) == "rng":
-                    ok = isinstance(pm.get(p), ast.Assign) and norm(pm.get(p).targets[0]) == rv
-                rep.check(ok, "R18.1", f.qualname, "GLOBAL_RNG outside the default idiom: %s" % norm_stmt(enclosing_stmt(n, pm)), fn_where(f, n), "%s uses GLOBAL_RNG only as the default for its own rng" % f.name,
-                          "%s reads GLOBAL_RNG outside the `rng = ... default` idiom (`%s`): the draw bypasses the generator the caller supplied and two runs from equal generator states differ" % (f.qualname, norm_stmt(enclosing_stmt(n, pm))))
-        # default parameter value
-        a = f.node.args
-        for d in list(a.defaults) + [x for x in a.kw_defaults if x is not None]:
-            if isinstance(d, ast.Name) and d.id == "GLOBAL_RNG":
-                nglob += 1
-                rep.ob("R18.1", fn_where(f), "%s: GLOBAL_RNG as parameter default" % f.name, True)
-    rep.floor("R18.1", "GLOBAL_RNG references in the simulators", 18, nglob)
+    with rep.section("(a) GLOBAL_RNG idioms"):
+        nglob = 0
+        for f in fns:
+            pm = parent_map(f.node)
+            for n in walk_no_nested(f.node):
+                if isinstance(n, ast.Name) and n.id == "GLOBAL_RNG":
+                    nglob += 1
+                    p = pm.get(n)
+                    ok = False
+                    rv = rng_var(f)
+                    if isinstance(p, ast.Assign) and norm(p.targets[0]) == rv:
+                        g = pm.get(p)
+                        if isinstance(g, ast.If) and norm(g.test) in ("%s is None" % rv, "not %s" % rv, "%s == None" % rv):
+                            ok = True
+                    if isinstance(p, ast.Call) and isinstance(p.func, ast.Attribute) and norm(p.func.value) == "kwargs" and p.func.attr in ("pop", "get") and const_value(p.args[0]) == "rng":
+                        ok = isinstance(pm.get(p), ast.Assign) and norm(pm.get(p).targets[0]) == rv
+                    rep.check(ok, "R18.1", f.qualname, "GLOBAL_RNG outside the default idiom: %s" % norm_stmt(enclosing_stmt(n, pm)), fn_where(f, n), "%s uses GLOBAL_RNG only as the default for its own rng" % f.name,
+                              "%s reads GLOBAL_RNG outside the `rng = ... default` idiom (`%s`): the draw bypasses the generator the caller supplied and two runs from equal generator states differ" % (f.qualname, norm_stmt(enclosing_stmt(n, pm))))
+            # default parameter value
+            a = f.node.args
+            for d in list(a.defaults) + [x for x in a.kw_defaults if x is not None]:
+                if isinstance(d, ast.Name) and d.id == "GLOBAL_RNG":
+                    nglob += 1
+                    rep.ob("R18.1", fn_where(f), "%s: GLOBAL_RNG as parameter default" % f.name, True)
+        rep.floor("R18.1", "GLOBAL_RNG references in the simulators", 18, nglob)
 
     # ---- (b) random module
-    for f in fns:
-        for c in calls_in(f.node):
-            if isinstance(c.func, ast.Attribute) and isinstance(c.func.value, ast.Name) and c.func.value.id == "random":
-                tgt = index.resolve_expr(f.module, c.func.value)
-                if tgt is not None:
-                    continue   # a repo object named random
-                ok = c.func.attr in ("Random", "SystemRandom")
-                rep.check(ok, "R18.1", f.qualname, "module-level random call: " + norm(c)[:60], fn_where(f, c), "%s uses the random module only to construct a generator" % f.name,
-                          "%s calls `%s` on the module-level generator: the draw is not taken from the rng argument, so the simulator is not a function of its arguments and the generator state" % (f.qualname, norm(c)[:60]))
+    with rep.section("(b) random module"):
+        for f in fns:
+            for c in calls_in(f.node):
+                if isinstance(c.func, ast.Attribute) and isinstance(c.func.value, ast.Name) and c.func.value.id == "random":
+                    tgt = index.resolve_expr(f.module, c.func.value)
+                    if tgt is not None:
+                        continue   # a repo object named random
+                    ok = c.func.attr in ("Random", "SystemRandom")
+                    rep.check(ok, "R18.1", f.qualname, "module-level random call: " + norm(c)[:60], fn_where(f, c), "%s uses the random module only to construct a generator" % f.name,
+                              "%s calls `%s` on the module-level generator: the draw is not taken from the rng argument, so the simulator is not a function of its arguments and the generator state" % (f.qualname, norm(c)[:60]))
 
     # ---- (c) forwarding
-    nsites = 0
-    for f in fns:
-        if not has_rng(f):
-            continue
-        for c in calls_in(f.node, nested=True):
-            grade, cands = index.resolve_call(c, f)
-            callee = None
-            if grade in ("self", "static"):
-                cs = [x for x in cands if hasattr(x, "all_params")]
-                if cs and cs[0].qualname in rng_takers:
-                    callee = cs[0]
-                elif cands and hasattr(cands[0], "methods"):
-                    init = index.find_method(cands[0], "__init__")
-                    if init is not None and init.qualname in rng_takers:
-                        callee = init
-            elif grade == "name" and call_name(c) in RNG_TREE_METHODS:
-                callee = index.function(TREE + "." + call_name(c))
-            if callee is None:
+    with rep.section("(c) forwarding"):
+        nsites = 0
+        for f in fns:
+            if not has_rng(f):
                 continue
-            nsites += 1
-            v = get_kwarg(c, "rng")
-            if v is None:
-                params = [p for p in callee.params if p not in ("self", "cls")] if callee.cls is not None else list(callee.params)
-                if "rng" in params:
-                    i = params.index("rng")
-                    if i < len(c.args) and not any(isinstance(a, ast.Starred) for a in c.args):
-                        v = c.args[i]
-            ok = v is not None and norm(v) in (rng_var(f), "self.rng", "self._rng")
-            if v is None and has_star_kwargs(c):
-                # **kwargs forwards rng only if it is still in kwargs (not popped)
-                popped = any(isinstance(x.func, ast.Attribute) and norm(x.func.value) == "kwargs" and x.func.attr == "pop" and x.args and const_value(x.args[0]) == "rng" for x in calls_in(f.node))
-                ok = not popped
-            rep.check(ok, "R18.1", f.qualname, "call %s(...) without the caller's rng" % norm(c.func)[:50], fn_where(f, c), "%s passes its rng to %s" % (f.name, callee.name),
-                      "%s calls %s, which draws random numbers, without passing its own `rng` (%s): that draw silently comes from GLOBAL_RNG, so two runs from equal generator states return different trees"
-                      % (f.qualname, callee.qualname, "rng=%s" % norm(v) if v is not None else "no rng argument"))
-    rep.floor("R18.1", "call sites of rng-taking functions inside rng-taking simulators", 15, nsites)
+            for c in calls_in(f.node, nested=True):
+                grade, cands = index.resolve_call(c, f)
+                callee = None
+                if grade in ("self", "static"):
+                    cs = [x for x in cands if hasattr(x, "all_params")]
+                    if cs and cs[0].qualname in rng_takers:
+                        callee = cs[0]
+                    elif cands and hasattr(cands[0], "methods"):
+                        init = index.find_method(cands[0], "__init__")
+                        if init is not None and init.qualname in rng_takers:
+                            callee = init
+                elif grade == "name" and call_name(c) in RNG_TREE_METHODS:
+                    callee = index.function(TREE + "." + call_name(c))
+                if callee is None:
+                    continue
+                nsites += 1
+                v = get_kwarg(c, "rng")
+                if v is None:
+                    params = [p for p in callee.params if p not in ("self", "cls")] if callee.cls is not None else list(callee.params)
+                    if "rng" in params:
+                        i = params.index("rng")
+                        if i < len(c.args) and not any(isinstance(a, ast.Starred) for a in c.args):
+                            v = c.args[i]
+                ok = v is not None and norm(v) in (rng_var(f), "self.rng", "self._rng")
+                if v is None and has_star_kwargs(c):
+                    # **kwargs forwards rng only if it is still in kwargs (not popped)
+                    popped = any(isinstance(x.func, ast.Attribute) and norm(x.func.value) == "kwargs" and x.func.attr == "pop" and x.args and const_value(x.args[0]) == "rng" for x in calls_in(f.node))
+                    ok = not popped
+                rep.check(ok, "R18.1", f.qualname, "call %s(...) without the caller's rng" % norm(c.func)[:50], fn_where(f, c), "%s passes its rng to %s" % (f.name, callee.name),
+                          "%s calls %s, which draws random numbers, without passing its own `rng` (%s): that draw silently comes from GLOBAL_RNG, so two runs from equal generator states return different trees"
+                          % (f.qualname, callee.qualname, "rng=%s" % norm(v) if v is not None else "no rng argument"))
+        rep.floor("R18.1", "call sites of rng-taking functions inside rng-taking simulators", 15, nsites)
 
     # ---- R18.2
-    nset = 0
-    for f in fns:
-        setvars = set()
-        for n in walk_no_nested(f.node):
-            if isinstance(n, ast.Assign) and isinstance(n.targets[0], ast.Name):
-                v = n.value
-                if isinstance(v, (ast.Set, ast.SetComp)) or (isinstance(v, ast.Call) and call_name(v) in ("set", "frozenset") and isinstance(v.func, ast.Name)):
-                    setvars.add(n.targets[0].id)
-        for sv in sorted(setvars):
-            nset += 1
-            uses = []
+    with rep.section("R18.2"):
+        nset = 0
+        for f in fns:
+            setvars = set()
             for n in walk_no_nested(f.node):
-                if isinstance(n, (ast.For, ast.comprehension)) and isinstance(n.iter, ast.Name) and n.iter.id == sv:
-                    uses.append(n)
-                elif isinstance(n, ast.Call) and call_name(n) in ("list", "tuple", "sample", "choice", "shuffle", "pop") and n.args and isinstance(n.args[0], ast.Name) and n.args[0].id == sv:
-                    uses.append(n)
-                elif isinstance(n, ast.Call) and call_name(n) == "pop" and isinstance(n.func, ast.Attribute) and norm(n.func.value) == sv:
-                    uses.append(n)
-            # sets of strings / labels are order-safe only if never iterated; membership tests are fine
-            rep.check(not uses, "R18.2", f.qualname, "set `%s` iterated: %s" % (sv, norm(uses[0])[:60] if uses else ""), fn_where(f, uses[0] if uses else None),
-                      "%s: set `%s` is used for membership tests only" % (f.name, sv),
-                      "%s iterates over / samples from the set `%s` (`%s`): node and taxon hashes are address based, so the order differs between processes and the simulated tree is not reproducible from the generator state" % (f.qualname, sv, norm(uses[0])[:60] if uses else ""))
-    if nset == 0:
-        rep.ob("R18.2", "src/dendropy/model", "no set-typed locals in the simulators", True)
+                if isinstance(n, ast.Assign) and isinstance(n.targets[0], ast.Name):
+                    v = n.value
+                    if isinstance(v, (ast.Set, ast.SetComp)) or (isinstance(v, ast.Call) and call_name(v) in ("set", "frozenset") and isinstance(v.func, ast.Name)):
+                        setvars.add(n.targets[0].id)
+            for sv in sorted(setvars):
+                nset += 1
+                uses = []
+                for n in walk_no_nested(f.node):
+                    if isinstance(n, (ast.For, ast.comprehension)) and isinstance(n.iter, ast.Name) and n.iter.id == sv:
+                        uses.append(n)
+                    elif isinstance(n, ast.Call) and call_name(n) in ("list", "tuple", "sample", "choice", "shuffle", "pop") and n.args and isinstance(n.args[0], ast.Name) and n.args[0].id == sv:
+                        uses.append(n)
+                    elif isinstance(n, ast.Call) and call_name(n) == "pop" and isinstance(n.func, ast.Attribute) and norm(n.func.value) == sv:
+                        uses.append(n)
+                # sets of strings / labels are order-safe only if never iterated; membership tests are fine
+                rep.check(not uses, "R18.2", f.qualname, "set `%s` iterated: %s" % (sv, norm(uses[0])[:60] if uses else ""), fn_where(f, uses[0] if uses else None),
+                          "%s: set `%s` is used for membership tests only" % (f.name, sv),
+                          "%s iterates over / samples from the set `%s` (`%s`): node and taxon hashes are address based, so the order differs between processes and the simulated tree is not reproducible from the generator state" % (f.qualname, sv, norm(uses[0])[:60] if uses else ""))
+        if nset == 0:
+            rep.ob("R18.2", "src/dendropy/model", "no set-typed locals in the simulators", True)
 
-    _distinct_labels_rule(index, rep)
-    _containment_rule(index, rep)
+        _distinct_labels_rule(index, rep)
+        _containment_rule(index, rep)
 
 
 def _distinct_labels_rule(index, rep):
